@@ -37,19 +37,39 @@ def _qev_resumable(sub, cases, tag, ctx, heavy=0, timeout=3000):
     rest = list(cases)
     done = 0
     aborts = 0
+    kills = 0
+
+    def complete_lines():
+        """records written so far; a line cut short by a kill is dropped from the file"""
+        if not os.path.exists(outp):
+            return []
+        raw = open(outp, "rb").read()
+        keep = raw[:raw.rfind(b"\n") + 1]
+        if len(keep) != len(raw):
+            with open(outp, "wb") as f:
+                f.write(keep)
+        return [json.loads(l) for l in keep.decode().splitlines() if l.strip()]
     try:
         while rest:
             write_ndjson(inp, rest)
             p = vlib.qev([sub, inp, outp, files, str(heavy)], timeout=timeout, check=False)
-            recs = read_ndjson(outp) if os.path.exists(outp) else []
+            recs = complete_lines()
             new = len(recs) - done
             done = len(recs)
             if p.returncode == 0:
                 if new != len(rest):
                     raise vlib.ToolError(f"qev {sub} returned {new} records for {len(rest)} cases")
                 break
+            if p.returncode in (-9, -15, 137, 143):
+                # killed from outside (OOM killer, an operator): not an outcome of the code under test; resume
+                kills += 1
+                if kills > 5:
+                    raise vlib.ToolError(f"qev {sub} was killed {kills} times (signal {p.returncode})")
+                log(f"[C10] qev {sub} ({tag}) was killed from outside (rc {p.returncode}); resuming after {done} records")
+                rest = rest[new:]
+                continue
             cur = outp + ".cur"
-            if not os.path.exists(cur) or new >= len(rest):
+            if p.returncode not in (-6, 134) or not os.path.exists(cur) or new >= len(rest):
                 log(p.stderr[-3000:])
                 raise vlib.ToolError(f"qev {sub} exited {p.returncode} outside a case")
             c = json.load(open(cur))
@@ -522,7 +542,7 @@ def model_runs(ctx, quick):
     def one(job):
         what, cfg = job
         return job, run_tlc("Scatter", cfg, workers=(4 if quick else 6), timeout=3300, heap="6g", tag=f"C10-{cfg[:-4]}",
-                            coverage=(what == "main" and not quick))
+                            coverage=(cfg == "Scatter_thorough.cfg"))
     with concurrent.futures.ThreadPoolExecutor(max_workers=2) as ex:
         results = list(ex.map(one, jobs))
     cases = []
